@@ -522,6 +522,7 @@ async fn main(plan: Plan) -> Outcome {
     };
     let mut unprepared_seen = 0u64;
     let mut reexecuted = 0u64;
+    let mut reexec_md_checked = 0u64;
     // (a) UNPREPARED => PREPARE of the same text on the same connection, then an identical EXECUTE/BATCH.
     for (i, e) in execs.iter().enumerate() {
         if e.answer != Answer::Unprepared || (e.text != SEL && e.text != INS && e.text != UPD) {
@@ -586,6 +587,26 @@ async fn main(plan: Plan) -> Outcome {
                         && n.page_size == e.page_size
                         && n.paging_state == e.paging_state
                         && n.timestamp == e.timestamp;
+                    // The repeated EXECUTE presents the result metadata id its re-preparation
+                    // announced (or a later one), never an older one - unless an older
+                    // announcement was still on its way to the client at that time.
+                    if e.text == SEL && !e.is_batch && world::world().conns[e.conn].cql.metadata_id_ext {
+                        if let Some(md) = n.presented_md_id.as_ref().filter(|m| !m.is_empty()) {
+                            let presented_version = announced.iter().find(|a| &a.2 == md).map(|a| a.1);
+                            let older_in_flight = announced
+                                .iter()
+                                .any(|a| a.1 < p.version && a.0 + 60 * MS >= p.t && a.0 <= n.t);
+                            if let Some(v) = presented_version {
+                                if v < p.version && !older_in_flight {
+                                    out.violation(
+                                        "c14.reexecution_presents_older_metadata_id",
+                                        format!("the re-preparation announced result metadata version {} but the repeated EXECUTE presented the id of version {v}: {ctx}", p.version),
+                                    );
+                                }
+                                reexec_md_checked += 1;
+                            }
+                        }
+                    }
                     if !same {
                         out.violation(
                             "c14.reexecution_differs",
@@ -751,6 +772,7 @@ async fn main(plan: Plan) -> Outcome {
     out.nontrivial = unprepared_seen > 0 || versions.len() > 1;
     out.count("unprepared_answers", unprepared_seen);
     out.count("reexecutions_checked", reexecuted);
+    out.count("reexecution_metadata_id_checked", reexec_md_checked);
     out.count("rows_checked", rows_checked);
     out.count("undetectable_schema_change_skipped", undetectable);
     out.count("schema_versions", versions.len() as u64);
